@@ -93,13 +93,48 @@ class P(Prop):
                 break
 
     # ------------------------------------------------------------------ oracle: values
-    def oracle_add(self, parent, child, name):
+    def oracle_add(self, parent, child, name, self_add=False):
         p = parent.copy()
-        conns = self.conn_map(p, child, name)
-        case = {"fn": "add_subcircuit", "parent": c_to_json(p), "child": c_to_json(child), "name": name, "connections": conns}
+        hist = None
+        if self_add:
+            # the circuit added into itself (K44): the child is the parent object as it is when the call is made
+            child = p.copy()
+            nets = [n for n in p.graph.nodes if p.type(n) not in ("bb_input", "bb_output")]
+            conns = {i: self.rng.choice(nets) for i in sorted(child.inputs()) if self.rng.random() < 0.6}
+            self.stats.bump("history:self-add")
+        else:
+            if self.rng.random() < 0.35:
+                # the SAME child object was instantiated before (into another parent) and then edited in place without
+                # changing its number of nodes: the second instantiation must follow the child as it is now
+                scratch = parent.copy()
+                call(scratch.add_subcircuit, child, "pre", {i: self.rng.choice(sorted(scratch.inputs())) for i in sorted(child.inputs())})
+                before = c_to_json(child)
+                r = self.rng.random()
+                internal = [n for n in sorted(child.graph.nodes) if child.type(n) != "input" and not child.is_output(n)]
+                if r < 0.3 and internal:
+                    child.set_output(self.rng.choice(internal))
+                    hist = "child:set_output"
+                elif r < 0.5 and len(child.inputs()) > 1:
+                    i = self.rng.choice(sorted(child.inputs()))
+                    if not child.is_output(i):
+                        child.set_type(i, self.rng.choice(["0", "1"]))
+                        hist = "child:input-tied"
+                elif r < 0.65 and internal:
+                    g = self.rng.choice(internal)
+                    child.disconnect(list(child.fanin(g)), g)
+                    child.set_type(g, "input")
+                    hist = "child:gate-to-input"
+                else:
+                    e = gen.inplace_edit(self.rng, child, exclude=("add_sub", "fill", "relabel"))
+                    hist = "child:" + (e or {}).get("op", "none") if e else None
+                if hist:
+                    self.stats.bump("history:" + hist)
+            conns = self.conn_map(p, child, name)
+        case = {"fn": "add_subcircuit", "parent": c_to_json(p), "child": c_to_json(child), "name": name, "connections": conns,
+                "self_add": self_add, "child_history": hist}
         before_io = (set(p.inputs()), set(p.outputs()))
         q = p.copy()
-        o, _ = call(q.add_subcircuit, child, name, conns)
+        o, _ = call(q.add_subcircuit, q if self_add else child, name, conns)
         self.search_cases += 1
         if o != "ok":
             clash = any(f"{name}_{x}" in p.graph.nodes for x in child.graph.nodes)
@@ -278,12 +313,21 @@ class P(Prop):
                     self.fail("search", "strip-other-node", f"node {n} changed", case)
                     return
 
+    def corpus(self):
+        # K44: a circuit added into itself (with a flop inside, and one input fed from its own gate)
+        c = cg.Circuit("top")
+        c.add("a", "input")
+        c.add("b", "input")
+        c.add("g", "and", fanin=["a", "b"], output=True)
+        gen.add_flops(self.rng, c, n_flops=(1, 1))
+        self.oracle_add(c, c, "u", self_add=True)
+
     def search(self, n):
         for i in range(n):
             parent, child = self.gen_pair(child_bb=(i % 5 == 0))
             k = i % 3
             if k == 0:
-                self.oracle_add(parent, child, self.rng.choice(["u", "s0", "m"]))
+                self.oracle_add(parent, child, self.rng.choice(["u", "s0", "m"]), self_add=(i % 12 == 9))
             elif k == 1:
                 self.oracle_fill(parent, child)
             else:
